@@ -64,6 +64,13 @@ class TInt(int):
     __hash__ = int.__hash__
 
 
+class NpInt(TInt):
+    """an element taken out of a NumPy integer array (np.int64 / np.intp scalar): behaves like the number, but it is NOT an instance
+    of Python's int (isinstance(np.int64(3), int) is False)"""
+    def __repr__(self):
+        return f"np{int(self)}"
+
+
 # --------------------------------------------------------------------------- terms
 def universe(item) -> str:
     return item[0] if isinstance(item, str) else str(item)
@@ -648,6 +655,35 @@ class IdxArr:
         if len(big) > 1:
             raise ModelAbort("index array reshaped to more than one long axis")
         return Mesh(big[0] if big else None, len(shape), self.positions)       # all-ones shape: the long axis is anyone's guess
+
+    @property
+    def size(self):
+        return len(self.positions)
+
+    def __len__(self):
+        return len(self.positions)
+
+    def __iter__(self):
+        return iter([x if isinstance(x, bool) else NpInt(x, getattr(x, "src", None)) for x in self.positions])
+
+    def __getitem__(self, k):
+        if isinstance(k, slice):
+            return IdxArr(self.positions[k])
+        if isinstance(k, IdxArr):
+            if all(isinstance(x, bool) for x in k.positions):
+                if len(k.positions) != len(self.positions):
+                    raise NumpyRaise("IndexError", "boolean index did not match indexed array")
+                return IdxArr([p for p, b in zip(self.positions, k.positions) if b])
+            return IdxArr([self.positions[int(i)] for i in k.positions])
+        if isinstance(k, (list, tuple)) and all(isinstance(i, int) and not isinstance(i, bool) for i in k) and isinstance(k, list):
+            return IdxArr([self.positions[int(i)] for i in k])
+        if isinstance(k, int) and not isinstance(k, bool):
+            n = len(self.positions)
+            if not -n <= int(k) < n:
+                raise NumpyRaise("IndexError", f"index {int(k)} is out of bounds for axis 0 with size {n}")
+            x = self.positions[int(k)]
+            return x if isinstance(x, bool) else NpInt(x, getattr(x, "src", None))
+        raise ModelAbort(f"index array subscripted with {type(k).__name__}")
 
     def __repr__(self):
         return f"IdxArr({self.positions})"
